@@ -71,4 +71,24 @@ CsvErr(j, c, hier, leaf, Name(_, _), Alias(_, _), B) ==
                                                           ELSE c[i].alias = -1) THEN 1514
          ELSE IF ~(B = 1 \/ \A i \in 1..Len(c) : c[i].conf \in Round4(J(c[i].lev).k, B)) THEN 1515
          ELSE 0
+
+(***************************************************************************)
+(* Fourth view: the data frame stored under obsm[key] of the query file    *)
+(* (blob_to_df).  o : sequence over levels of                              *)
+(*   [lev, label, name, alias, k, ru, direct] (alias = -1 off the leaf).   *)
+(* Votes are stored as the probability itself (not rounded to 4 decimals). *)
+(***************************************************************************)
+ObsmErr(j, o, hier, leaf, Name(_, _), Alias(_, _)) ==
+    IF ~(Len(o) = Len(hier)) THEN 1540
+    ELSE IF ~(\A i \in 1..Len(hier) : o[i].lev = hier[i]) THEN 1541
+    ELSE LET J(lev) == j[CHOOSE i \in 1..Len(j) : j[i].lev = lev] IN
+         IF ~(\A i \in 1..Len(o) : o[i].label = J(o[i].lev).a) THEN 1542
+         ELSE IF ~(\A i \in 1..Len(o) : o[i].name = Name(o[i].lev, o[i].label)) THEN 1543
+         ELSE IF ~(\A i \in 1..Len(o) : IF o[i].lev = leaf THEN o[i].alias = Alias(leaf, o[i].label)
+                                                          ELSE o[i].alias = -1) THEN 1544
+         ELSE IF ~(\A i \in 1..Len(o) : o[i].k = J(o[i].lev).k /\ o[i].direct = J(o[i].lev).direct) THEN 1545
+         ELSE IF ~(\A i \in 1..Len(o) : LET x == o[i].ru y == J(o[i].lev).ru IN
+                      Len(x) = Len(y) /\ \A r \in 1..Len(x) : x[r][1] = y[r][1] /\ x[r][2] = y[r][2]) THEN 1546
+         ELSE IF ~(\A i \in 1..Len(o) : o[i].f = J(o[i].lev).f) THEN 1547          \* floats, quantised to 1e-8
+         ELSE 0
 =============================================================================
